@@ -11,8 +11,56 @@ SPEC = dict(
     harness="c01.cpp",
     translators=[typecodes_translator],
     theorems=[
+        "SymVerif.C01.hash_congr_partial",
+        "SymVerif.C01.eq_imp_identical",
+        "SymVerif.C01.hash_add_perm",
+        "SymVerif.C01.eq_symm_partial",
+        "SymVerif.C01.eq_refl_partial",
+        "SymVerif.C01.uset_no_dup",
+        "SymVerif.C01.d1_witness",
+        "SymVerif.C01.d1_witness_nested",
+        "SymVerif.C01.C01_full_false",
+        # tie of the generated tables to the proofs (re-checked on every regeneration)
+        "SymVerif.Expr.builtin_kind_none",
+        "SymVerif.Expr.builtinCodes_nodup",
+        "SymVerif.Expr.table_codes_nodup",
     ],
-    rule="",
-    not_covered=[],
-    assumptions=[],
+    partial=[
+        dict(full="SymVerif.C01.C01_full", proved="SymVerif.C01.hash_congr_partial",
+             excluded="noSignedZero (a double -0.0 anywhere: defect D1, negation proved in C01_full_false) and "
+                      "noNaN (a NaN double anywhere: such an expression is eq to nothing, not even itself, so the "
+                      "property is vacuous there; the exclusion is needed because RCPBasicKeyLess is not an order on "
+                      "NaN, D3)"),
+    ],
+    rule="ops: `hash e` (64-bit value), `eq a b`, `pair a b` (eq + both hashes) on canonical dumps of real "
+         "expressions built through the public API, compared with the Lean model; `opair kind seed` builds a pair "
+         "along two construction paths through the API (15 kinds: a+b/b+a, nested/flat, x*x/x**2, sub/div forms, "
+         "0.0/-0.0, set insertion orders, parse(str(e)), independent rebuild, expand, number paths, subs round "
+         "trip, exotic classes, unrelated) and checks eq => equal hash on the real objects. distinct = distinct op "
+         "lines; non-trivial = all (every op evaluates hash/eq on at least one composite or boundary value); tags "
+         "give the kind / class distribution.",
+    not_covered=[
+        "classes outside the model (oracle only, no theorem): Dummy, Derivative, Subs, Piecewise, ConditionSet, "
+        "ImageSet, FunctionWrapper, NumberWrapper, Tuple, all polynomial classes (D2: MIntPoly constant over {x} vs "
+        "{y}), series, matrix expressions, RealMPFR/ComplexMPC (not configured)",
+        "Intersection and Complement are modelled and proved about, but harness/sexp.h cannot rebuild them, so they "
+        "have no correspondence ops",
+        "Xor is modelled as an RCPBasicKeyLess-ordered sequence (what logical_xor produces); a Xor built directly "
+        "from an unsorted vec_boolean is outside the model",
+        "expressions with a NaN double nested inside an ordered container (Mul/Add/set keys): the container order "
+        "then depends on the insertion history (D3) and is not reproduced",
+        "symbol / function names containing spaces or parentheses (wire format), non-UTF-8 names",
+        "the hash_ == 0 cache of Basic::hash (value-irrelevant) and thread-safety of the cache (C41)",
+    ],
+    assumptions=[
+        "libstdc++ caches hash codes in unordered_map nodes for RCPBasicHash (non-noexcept functor), so "
+        "umap_basic_num::find succeeds iff some key has the same hash and is eq; the model's Add::__eq__ uses that",
+        "GMP mpz_get_si / mpz_get_ui limb semantics as documented (64-bit limbs, long = 64 bit)",
+        "char is signed (x86-64 SysV) in hash_combine_impl(std::string)",
+    ],
+    level_text="machine-checked proof (Lean 4) of the property on the executable model for all well-formed "
+               "expressions without -0.0 / NaN doubles; bit-exact correspondence of the model with Basic::hash / eq",
+    technique="Lean 4 model mirroring every __hash__/__eq__ + structural-induction proofs; translator for the "
+              "TypeID numbering and class kinds; differential testing of model vs library on 64-bit hash values; "
+              "property oracle on API-built construction-path pairs",
 )
